@@ -790,6 +790,22 @@ func (c *evalCtx) call(n *Node) SV {
 	case "ite":
 		cc, a, b := c.eval(n.Args[0]), c.eval(n.Args[1]), c.eval(n.Args[2])
 		return SV{T: ite(cc.T, a.T, b.T), Ty: a.Ty, Opt: a.Opt, Sort: a.Sort}
+	case "$called", "$arg", "$ret":
+		ce, ok := c.env.(interface {
+			CallInfo(kind, fn string, i int) (SV, bool)
+		})
+		if !ok || len(n.Args) == 0 || n.Args[0].Kind != "str" {
+			panic(n.Name + "(\"Function\"[, index])")
+		}
+		i := 0
+		if len(n.Args) > 1 {
+			fmt.Sscan(n.Args[1].Name, &i)
+		}
+		sv, ok := ce.CallInfo(n.Name, n.Args[0].Name, i)
+		if !ok {
+			panic(fmt.Sprintf("%s: no such call/argument of %s", n.Name, n.Args[0].Name))
+		}
+		return sv
 	case "isType":
 		a := c.eval(n.Args[0])
 		if n.Args[1].Kind != "str" {
